@@ -10,6 +10,7 @@ LEVEL = "proof"
 TRUSTED = [
     "Coq 8.16.1 kernel + vm_compute (no native_compute); theorems in coq/Props/C16.v, Print Assumptions: closed under the global context",
     "hand-written Gallina models coq/Model/CodedCpp.v (coded_stream.h) tied to the code by differential execution (harness/cpp/coded_driver.cc compiled against /repo's header, -fsanitize=address)",
+    "hand-written Gallina model coq/Model/CodedPy.v (_binary.py CodedInputStream over a BytesIO; exception kinds included) tied to the code by differential execution (harness/py/coded_driver.py on a copy of /repo's static_files); fixed-size reads no larger than the buffer",
     "python harness (generators, comparison glue), g++ 12, libstdc++ istream semantics",
 ]
 
@@ -93,7 +94,8 @@ def cpp_reader_layer(ctx, n_scripts, bufsizes):
 
 
 def py_reader_layer(ctx, n_scripts, bufsizes):
-    """The Python CodedInputStream against the abstract byte-list reader (no machine model yet)."""
+    """The Python CodedInputStream against its machine model (Model/CodedPy.v: exception kinds included) and
+    against the abstract byte-list reader."""
     pyrt = cc.make_pyrt(ctx)
     rng = ctx.rng
     cases = []
@@ -118,25 +120,35 @@ def py_reader_layer(ctx, n_scripts, bufsizes):
     def ev(ix_sh):
         ix, sh_ = ix_sh
         out = ctx.coq_eval("pycases_%d" % ix, cc.py_reader_cases_v([c for c, _ in sh_], [o for _, o in sh_]))
-        return ix, Ctx.parse_nat_list(out, "MA")
+        return ix, Ctx.parse_nat_list(out, "MM"), Ctx.parse_nat_list(out, "MA")
 
     with ThreadPoolExecutor(max_workers=8) as ex:
         results = list(ex.map(ev, enumerate(shards)))
-    ma = []
-    for ix, m in results:
-        ma += [ix * 400 + k for k in m]
+    ma, mm = [], []
+    for ix, m_, a_ in results:
+        mm += [ix * 400 + k for k in m_]
+        ma += [ix * 400 + k for k in a_]
     for (bs, data, ops), o in zip(cases, obs):
         ctx.case(("py-in", bs, tuple(data), tuple(ops)), nontrivial=len(ops) > 0,
                  sample={"layer": "py-coded-in", "bufsize": bs, "input_hex": cc.hexs(data),
                          "ops": [cc.py_op_text(x) for x in ops], "observed": o})
     ctx.coverage["traces_validated_against_impl"] = ctx.coverage.get("traces_validated_against_impl", 0) + len(cases)
+    for k in [x for x in mm if x not in ma][:3]:
+        bs, data, ops = cases[k]
+        ctx.report("py-coded-in:machine-model-differs",
+                   "_binary.CodedInputStream(buffer_size=%d) on %d input bytes, script %s returned %s; the machine model "
+                   "Model.CodedPy.prun (which the refinement theorems are about) says otherwise, while the byte-level "
+                   "contract is still met on this input" % (bs, len(data), [cc.py_op_text(x) for x in ops], obs[k]),
+                   {"layer": "py-coded-in", "bufsize": bs, "input": data, "ops": [list(x) for x in ops], "observed": obs[k],
+                    "broken": "correspondence Model.CodedPy.prun vs _binary.py CodedInputStream (theorem C16_py_reader_refines no longer about the code)"},
+                   no_input=True)
     for k in ma[:3]:
         bs, data, ops = cases[k]
         ctx.report("py-coded-in:wrong-result",
                    "_binary.CodedInputStream(buffer_size=%d) on %d input bytes, script %s returned %s; the byte-level "
                    "contract (abstract reader) says otherwise" % (bs, len(data), [cc.py_op_text(x) for x in ops], obs[k]),
                    {"layer": "py-coded-in", "bufsize": bs, "input": data, "ops": [list(x) for x in ops], "observed": obs[k],
-                    "broken": "correspondence Model.CodedCpp.arun vs _binary.py CodedInputStream"})
+                    "broken": "correspondence Model.CodedPy.parun vs _binary.py CodedInputStream"})
 
 
 def typed_layer(ctx, n_pkgs, n_streams, max_cuts):
@@ -181,6 +193,11 @@ def typed_layer(ctx, n_pkgs, n_streams, max_cuts):
                         pre = stream[:cut]
                         r = gp.py_call({"proto": pname, "fin": "binary", "fout": "binary", "data": pre.hex(), "mode": "copy"})
                         obs = [("python", r["ok"], r["out"], full_lines, r.get("err", ""))]
+                        if r.get("hang"):
+                            ctx.report("typed:python:hang", "python reader neither completed nor reported an error (no answer within the "
+                                       "runner's time limit) on a stream cut at byte %d of %d (protocol %s)" % (cut, len(stream), pname),
+                                       {"layer": "typed", "reader": "python", "model": gp.pkg.yaml(), "namespace": gp.pkg.namespace,
+                                        "protocol": pname, "stream_hex": stream.hex(), "cut": cut})
                         if cpp and cfull is not None and (cut % 2 == 0 or len(cuts) < 40):
                             c = gp.cpp_call(pname, "binary", "ndjson", pre)
                             obs.append(("c++", c["ok"], c["out"].decode(errors="replace").split("\n"), cfull, c["err"]))
@@ -258,6 +275,10 @@ def big_payload_layer(ctx, n_cuts):
                 pre = stream[:cut]
                 r = gp.py_call({"proto": pname, "fin": "binary", "fout": "binary", "data": pre.hex(), "mode": "copy"})
                 res = [("python", r["ok"], full["out"].startswith(r["out"]), r.get("err", ""))]
+                if r.get("hang"):
+                    ctx.report("bigpayload:python:hang", "python reader neither completed nor reported an error on a stream with a >64 KiB "
+                               "value cut at byte %d of %d (protocol %s)" % (cut, n, pname),
+                               {"layer": "big-payload", "reader": "python", "protocol": pname, "cut": cut, "of": n})
                 if cpp:
                     c = gp.cpp_call(pname, "binary", "binary", pre)
                     res.append(("c++", c["ok"], True, c["err"]))
